@@ -9,6 +9,9 @@ Floats are IEEE bit patterns. A point is three tokens; a base is four tokens `G|
   e2n|n2e|g2n|n2g <p:3> <base:4>     → 3 floats
   n2n <p:3> <base:4> <base2:4>       → 3 floats
   lamb <p:3>                         → 9 floats: L93(p), inverse of it, L93 of that
+  resid <lat0> <dlat> <n> <h0> <dh> <m>   the residual of Geo → ECEF → Geo in the meridian plane (`meridianRoundTrip`) on the grid
+                                     lat0 + i·dlat (i < n) × h0 + j·dh (j < m) → 6 floats: max |lat' − lat| and where (lat, h),
+                                     max |h' − h| and where (lat, h)
   track <G|N|E> <x,y,z;…> <barg> <op:barg>…   with barg = _ | G,x,y,z | E,x,y,z | S,n and op ∈ ENU GEO ECEF PROJ
                                      → per op `<kind> <pts> <barg>`; the first error ends the reply with `err:<kind>`
   hist <op>…                         a history on the object heap of `Model/GeoHeap.lean`. Values: `_` (None) | `S<n>` (int) |
@@ -226,6 +229,32 @@ def runHist : HState → List String → List String → String
           | .trackConv k _ _ => (none, some k, st.named)
         runHist ⟨w', named⟩ toks (showStep st.w w' res trk :: acc)
 
+/-! ### the residual of Geo → ECEF → Geo on a (latitude, height) grid -/
+
+structure ResidAcc where
+  dlat : Float := 0.0
+  latAt : Float := 0.0
+  hAt : Float := 0.0
+  dh : Float := 0.0
+  latAt2 : Float := 0.0
+  hAt2 : Float := 0.0
+
+def residStep (acc : ResidAcc) (lat h : Float) : ResidAcc :=
+  let (lat', h') := meridianRoundTrip FT lat h
+  let e1 := (lat' - lat).abs
+  let e2 := (h' - h).abs
+  -- `not (e <= max)`: a NaN residual is kept as the maximum
+  let acc := if !(e1 <= acc.dlat) then { acc with dlat := e1, latAt := lat, hAt := h } else acc
+  if !(e2 <= acc.dh) then { acc with dh := e2, latAt2 := lat, hAt2 := h } else acc
+
+def residGrid (lat0 dlat : Float) (n : Nat) (h0 dh : Float) (m : Nat) : ResidAcc := Id.run do
+  let mut acc : ResidAcc := {}
+  for i in [0:n] do
+    let lat := lat0 + i.toFloat * dlat
+    for j in [0:m] do
+      acc := residStep acc lat (h0 + j.toFloat * dh)
+  return acc
+
 def handle (cmd : String) (args : List String) : String :=
   match cmd, args with
   | "const", [] =>
@@ -235,6 +264,12 @@ def handle (cmd : String) (args : List String) : String :=
     match kind? k, pts? p, barg? b with
     | some k, some p, some b => runOps ⟨k, p, b⟩ ops []
     | _, _, _ => "bad-request"
+  | "resid", [lat0, dlat, n, h0, dh, m] =>
+    match float? lat0, float? dlat, n.toNat?, float? h0, float? dh, m.toNat? with
+    | some lat0, some dlat, some n, some h0, some dh, some m =>
+      let a := residGrid lat0 dlat n h0 dh m
+      " ".intercalate ([a.dlat, a.latAt, a.hAt, a.dh, a.latAt2, a.hAt2].map showFloat)
+    | _, _, _, _, _, _ => "bad-request"
   | "hist", ops => runHist ⟨⟨[], []⟩, []⟩ ops []
   | "pt", _ =>
     match pt? args with
